@@ -51,7 +51,9 @@ MANIFEST = {
             'an authorising allowed-signers entry (sshsig_signed_data_injective, sshsig_validate_sound, '
             'sshsig_binding); a certificate that authorises an SSHSIG has exactly the type validate_sshsig asks for, '
             'read from the source (sshsig_cert_signer_is_user_certificate, sshsig_cert_type_gen_status, witness '
-            'sshsig_host_cert_prefix_witness for CERT_TYPE_ANY); allowed-signers option names are stored lower-case '
+            'sshsig_host_cert_prefix_witness for CERT_TYPE_ANY); allowed-signers data without a newline is one line and '
+            'yields one entry whatever else it contains (signers_one_line_one_entry, tie signers_split_tie, witness '
+            'signers_hidden_entry_prefix_witness = defect F146); allowed-signers option names are stored lower-case '
             'and flag-then-value / bare value options raise, with the switches probed on the live parser '
             '(addOption_stores_lower, addOption_flag_then_value, addOption_bare_value_opt, option_case_gen_status, '
             'option_strict_gen_status, witnesses addOption_prefix_witness, option_case_prefix_witness). The model is tied to the code by a differential run on real keys, certificates, '
